@@ -519,8 +519,9 @@ def run_synthetic_tables(ctx, n):
             mload = lib.run_model(env_lines + ['loadcheck'])[-1].split(' factors_ok')[0]
             ctx.count((tag, 'load'))
             ctx.dist['synthetic-load-' + load.replace(' ', '')] += 1
-            if mload == 'err 99' and load == 'ok':
-                # cyclic definition: Python builds a cyclic object graph; the model runs out of fuel.
+            if mload == 'err 99':
+                # cyclic definition: Python builds a cyclic object graph (or fails for another reason
+                # first); the model runs out of fuel.  Not compared.
                 ctx.dist['synthetic-cyclic'] += 1
                 continue
             ctx.compare({'env': tag, 'b': b_files, 'd': d_files, 'cmd': 'load'}, load, mload,
